@@ -47,7 +47,7 @@ Lemma valid_shape q :
   valid_b (code_sem fb) q = true ->
   length q = nf fb /\
   (forall f, f < nf fb -> length (nth f q []) = T fb) /\
-  (forall t f, t < T fb -> f < nf fb -> exists l, l < nlevels fb f /\ get_cell q f t = Some l).
+  (forall t f, t < T fb -> isact fb f = true -> exists l, l < nlevels fb f /\ get_cell q f t = Some l).
 Proof.
   intros Hv. unfold valid_b in Hv. rewrite !andb_true_iff in Hv. destruct Hv as [[[Hlen Hfac] _] _].
   apply Nat.eqb_eq in Hlen. rewrite (sem_factors_length fb HF1 HT) in Hlen.
@@ -61,12 +61,12 @@ Proof.
   split; [exact Hlen|]. split.
   - intros f Hf. destruct (K f Hf) as (fd & _ & Hok). unfold factor_ok in Hok. apply andb_true_iff in Hok.
     destruct Hok as [Hl _]. now apply Nat.eqb_eq in Hl.
-  - intros t f Ht Hf. destruct (K f Hf) as (fd & Efd & Hok). unfold factor_ok in Hok. apply andb_true_iff in Hok.
+  - intros t f Ht Ha. pose proof (f1_act_lt fb HF1 f Ha) as Hf. destruct (K f Hf) as (fd & Efd & Hok). unfold factor_ok in Hok. apply andb_true_iff in Hok.
     destruct Hok as [_ Hc]. rewrite forallb_forall in Hc. specialize (Hc t ltac:(apply in_seq; cbn [code_sem s_trials]; unfold T in Ht; lia)).
     destruct (get_cell q f t) as [l|] eqn:Ec.
     + exists l. split; [|reflexivity]. rewrite !andb_true_iff in Hc. destruct Hc as [[[_ Hl] _] _].
       apply Nat.ltb_lt in Hl. cbn [code_factor f_nlevels] in Hl. now rewrite (nlevels_design fb f fd Efd).
-    + rewrite (applies_f1 fb HF1 f fd t Efd) in Hc. discriminate.
+    + rewrite (applies_f1 fb HF1 f fd t Efd Ha) in Hc. discriminate.
 Qed.
 
 Lemma valid_is_shape q : valid_b (code_sem fb) q = true -> shape fb q.
@@ -86,7 +86,7 @@ Qed.
 Lemma img_cell_act q t d :
   shape fb q -> t < T fb -> isact fb d = true -> cell_act fb (img q) t d = get_cell q d t.
 Proof.
-  intros (_ & _ & C) Ht Hd. destruct (C t d Ht (f1_act_lt fb HF1 d Hd)) as (x & Hx & Ex). rewrite Ex.
+  intros (_ & _ & C) Ht Hd. destruct (C t d Ht Hd) as (x & Hx & Ex). rewrite Ex.
   unfold cell_act. apply find_unique; [exact Hx|]. intros j Hj.
   rewrite (img_bit q t d j Ht Hd Hj), Ex, is_level_some. apply Nat.eqb_sym.
 Qed.
@@ -97,20 +97,22 @@ Lemma img_cell_impl q t f :
   get_cell q f t = cell_impl fb (img q) t f.
 Proof.
   intros Hv Ht Hf Hn. pose proof (valid_is_shape q Hv) as Hs.
-  destruct (implied_facts fb HF1 HT f Hf Hn) as (fd & w & Efd & Ew & Hd & _).
-  pose proof Hs as (_ & _ & C). destruct (C t f Ht Hf) as (l0 & Hl0 & El0).
-  pose proof (proj1 (factor_ok_shape fb HF1 HT q f fd Hs Efd) (valid_factor_ok q f fd Hv Efd) w Ew t l0 Ht El0) as Hacc.
-  assert (Ea : impl_args fb (img q) t w = map (lev q t) (win_deps w)).
-  { unfold impl_args. apply map_ext_in. intros d Hdd.
-    pose proof (proj1 (Forall_forall _ _) Hd d Hdd) as Hda. cbv beta in Hda.
-    rewrite (img_cell_act q t d Hs Ht Hda). reflexivity. }
-  unfold cell_impl, factor_at. rewrite Efd, Ew, Ea, El0.
-  destruct (find (fun l => level_accepts fd l (map (lev q t) (win_deps w))) (seq 0 (nlevels fb f))) as [l1|] eqn:Efind.
-  - destruct (find_in_range fb HF1 HT _ _ _ Efind) as [_ Hacc1].
-    rewrite <- (accepts_level_accepts_shape fb HF1 q f fd w t l1 Hs Efd Ew Ht) in Hacc1.
-    now rewrite (accepts_unique_shape fb HF1 HT q f fd w t l0 l1 Hs Efd Ew Ht Hacc Hacc1).
-  - exfalso. rewrite (accepts_level_accepts_shape fb HF1 q f fd w t l0 Hs Efd Ew Ht) in Hacc.
-    pose proof (find_none _ _ Efind l0 ltac:(apply in_seq; lia)) as Hno. cbv beta in Hno. congruence.
+  destruct (implied_facts fb HF1 HT f Hf Hn) as (fd & w & Efd & Ew & Hd & W1 & W2 & W3 & Htot).
+  pose proof Hs as (_ & R & C).
+  pose proof (proj1 (factor_ok_impl fb HF1 HT q f fd w Efd Ew (R f Hf)) (valid_factor_ok q f fd Hv Efd) t Ht) as Hok.
+  unfold cell_impl, factor_at. rewrite Efd, Ew.
+  destruct (get_cell q f t) as [l0|] eqn:El0.
+  - destruct Hok as (Hap & Hl0 & Hacc). rewrite Hap.
+    assert (Ew' : window_args q (code_factor fb f fd) (dwin fd w) t
+                  = window_args (dec_act fb (img q)) (code_factor fb f fd) (dwin fd w) t).
+    { apply (impl_window_ext fb HF1 HT _ _ f fd w t W3 Hap Ew). intros d t' Hdd Ht'.
+      pose proof (proj1 (Forall_forall _ _) Hd d Hdd) as Hda. cbv beta in Hda.
+      rewrite (dec_act_cell fb _ t' d ltac:(lia) (f1_act_lt fb HF1 d Hda)).
+      symmetry. apply (img_cell_act q t' d Hs ltac:(lia) Hda). }
+    rewrite <- Ew'. symmetry. apply (find_only fb HF1 HT); [|exact Hl0|exact Hacc].
+    apply Htot. apply (impl_window_in fb HF1 HT q f fd w t W3 Hap Ew). intros d t' Hdd Ht'.
+    pose proof (proj1 (Forall_forall _ _) Hd d Hdd) as Hda. cbv beta in Hda. exact (C t' d ltac:(lia) Hda).
+  - now rewrite Hok.
 Qed.
 
 Lemma valid_onehot_img q : valid_b (code_sem fb) q = true -> onehot fb (img q) q.
@@ -269,6 +271,35 @@ Example ex_implied_facts :
   length (all_valid (code_sem ex_implied)) = 12 /\
   hd [] (all_valid (code_sem ex_implied)) =
     [[Some 1; Some 1; Some 0; Some 0]; [Some 1; Some 0; Some 1; Some 0]; [Some 0; Some 1; Some 1; Some 0]].
+Proof.
+  split; [vm_compute; reflexivity|]. split; [vm_compute; lia|]. split; [vm_compute; reflexivity|].
+  split; [vm_compute; eexists; split; reflexivity|]. split; vm_compute; reflexivity.
+Qed.
+
+(** implied factor with a complex window: a Transition (width 2, stride 1,
+    start 1) on the text factor, not in act_design; it has no level in the
+    first trial *)
+Definition xtwin : fwindow :=
+  {| win_deps := [1]; win_width := 2; win_stride := 1; win_start := 1; win_start_delta := 0%Z |}.
+Definition xtrans : ffactor :=
+  {| ff_name := String.EmptyString; ff_hidden := false;
+     ff_levels := [xlvl [[[Some 0; Some 0]]; [[Some 1; Some 1]]]; xlvl [[[Some 0; Some 1]]; [[Some 1; Some 0]]]];
+     ff_window := Some xtwin; ff_complex := true |}.
+Definition ex_implied_transition : flat :=
+  {| fl_design := [xsimple; xsimple; xtrans]; fl_act := [0; 1];
+     fl_crossings := [[0; 1]]; fl_sustains := [1]; fl_weights := [1]; fl_sizes := [4];
+     fl_preambles := [0]; fl_alignment := EqualPreamble; fl_alignment_preamble := 1;
+     fl_min_trials := 0; fl_trials := 4; fl_rcc := true; fl_exclude := [];
+     fl_excluded_derived := [];
+     fl_constraints := [FCross; FConsistency; FAtMost 1 1 0 None];
+     fl_errors_fail := false |}.
+
+Example ex_implied_transition_facts :
+  in_f1 ex_implied_transition = true /\ 0 < T ex_implied_transition /\ isact ex_implied_transition 2 = false /\
+  (exists b, compile ex_implied_transition = COk b /\ b_fresh b = 66%Z) /\
+  length (all_valid (code_sem ex_implied_transition)) = 12 /\
+  hd [] (all_valid (code_sem ex_implied_transition)) =
+    [[Some 1; Some 1; Some 0; Some 0]; [Some 1; Some 0; Some 1; Some 0]; [None; Some 1; Some 1; Some 1]].
 Proof.
   split; [vm_compute; reflexivity|]. split; [vm_compute; lia|]. split; [vm_compute; reflexivity|].
   split; [vm_compute; eexists; split; reflexivity|]. split; vm_compute; reflexivity.
